@@ -854,13 +854,23 @@ def _validate_result(method_name: str, value: object, result_type: object) -> No
         raise TypeError(f"{method_name}() expected a non-None return value but got None")
 
 
-def _drain_stream(reader: ValidatedReader) -> None:
-    """Consume remaining batches so the IPC EOS marker is read."""
+def _drain_stream(reader: ValidatedReader, shm: ShmSegment | None = None) -> None:
+    """Consume remaining batches so the IPC EOS marker is read.
+
+    With *shm*, a discarded batch that points into shared memory has its
+    region released: the peer allocated it for us and nobody else will.
+    """
     while True:
         try:
-            reader.read_next_batch()
+            if shm is None:
+                reader.read_next_batch()
+                continue
+            batch, custom_metadata = reader.read_next_batch_with_custom_metadata()
         except StopIteration:
             return
+        _, _, release_fn = resolve_shm_batch(batch, custom_metadata, shm)
+        if release_fn is not None:
+            release_fn()
 
 
 def _write_stream_header(
@@ -1103,7 +1113,7 @@ def _read_unary_response(
         # the rest of this response is still on the transport and would be
         # read as the start of the next call's response.
         with contextlib.suppress(pa.ArrowInvalid, OSError, EOFError):
-            _drain_stream(reader)
+            _drain_stream(reader, shm)
         raise
     try:
         _drain_stream(reader)
